@@ -57,6 +57,13 @@ def run(ctx):
         ctx.violation("restart/%s/%s" % (what, recs[lno - 1].get("id")), "%s at line %d: %s" % (what, lno, (details[i] if i < len(details) else "")[:600]),
                       {"tid": tid, "line": lno, "behaviour": rb[int(tid.split("#")[1])],
                        "trace": [t for t in traces if t[0] == tid][0][1]})
+    # (e) failing queue items of a QController (error / panic / requeue with and without interval): retried within the
+    #     back-off envelope, other items not blocked, nothing lost once the faults cease (driver and judge of C09 b)
+    import importlib.util
+    spec = importlib.util.spec_from_file_location("c09", os.path.join(os.path.dirname(os.path.abspath(__file__)), "c09.py"))
+    c09 = importlib.util.module_from_spec(spec)
+    spec.loader.exec_module(c09)
+    c09.qruntime_part(ctx, vlib.go_build_test(ctx, "c09"), quick)
     ctx.cov["binding_selftest"].append({"see": "C05/C09 self-tests use the same judges (TraceRuntime, TraceBackoff)"})
     ctx.assumptions += [
         "goroutine leak = process goroutine count after Run returned and the harness stopped exceeds the count before the runtime was built",
